@@ -236,6 +236,64 @@ theorem icmp6SendPacket_tie (g : Mem) (hm dm smac sip dip msg : Bytes) (sport dp
       (by simp only [List.length_cons, List.length_nil, List.length_append, ip6Hdr, putChecksum, List.length_set];
           omega))
 
+/-! ### dns_naming `sendMDNS`: the frame buffer is allocated (`make([]byte, EthMaxSize)`), IPv4 and IPv6 branch -/
+
+theorem sendMDNS4_tie (hm dm smac sip dip : Bytes) (sport dp : Nat) (pl : Bytes) (g : Mem)
+    (h1 : hm.length = 6) (h2 : dm.length = 6) (h3 : sip.length = 4) (h4 : dip.length = 4)
+    (hdp : dp < 65536) (hfit : 42 + pl.length ≤ 1522) :
+    Gen.Send.dns_naming_sendMDNS g pl smac sip sport dm dip dp hm =
+      sendUDP4 (List.replicate 1522 0) hm dm 255 sip dip dp dp pl := by
+  unfold Gen.Send.dns_naming_sendMDNS
+  generalize hg : List.replicate 1522 (0 : UInt8) = g'
+  have hgl : g'.length = 1522 := by rw [← hg, List.length_replicate]
+  clear hg
+  rw [sendUDP4_frame g' hm dm sip dip 255 dp dp pl h1 h2 h3 h4 hdp hdp (by omega) (by omega)]
+  rw [if_pos h3]
+  have hcap : 42 ≤ g'.length := by omega
+  have hfit' : 42 + pl.length ≤ g'.length := by omega
+  clear hgl
+  cells h1; cells h2; cells h3; cells h4; cells_le hcap
+  rename_i T
+  simp only [List.length_cons] at hfit'
+  obtain ⟨A, T', rfl, hA⟩ := split_tail T pl.length (by omega)
+  simp only [encodeEther_tie, encodeIP4_tie, encodeUDP_tie, udpAppendPayload_tie, ip4SetPayload_tie, etherSetPayload_tie]
+  send_exec
+  enc_exec
+  rw [show 20 + (8 + pl.length) = 28 + pl.length by omega]
+  frame_close T'
+
+theorem sendMDNS6_tie (hm dm smac sip dip : Bytes) (sport dp : Nat) (pl : Bytes) (g : Mem)
+    (h1 : hm.length = 6) (h2 : dm.length = 6) (h3 : sip.length = 16) (h4 : dip.length = 16)
+    (hdp : dp < 65536) (hfit : 62 + pl.length ≤ 1522) :
+    Gen.Send.dns_naming_sendMDNS g pl smac sip sport dm dip dp hm =
+      sendUDP6 (List.replicate 1522 0) hm dm 255 sip dip dp dp pl := by
+  unfold Gen.Send.dns_naming_sendMDNS
+  generalize hg : List.replicate 1522 (0 : UInt8) = g'
+  have hgl : g'.length = 1522 := by rw [← hg, List.length_replicate]
+  clear hg
+  rw [sendUDP6_frame g' hm dm sip dip 255 dp dp pl h1 h2 h3 h4 hdp hdp (by omega) (by omega)]
+  rw [if_neg (by omega)]
+  simp only [rep40, List.replicate]
+  have hcap : 62 ≤ g'.length := by omega
+  have hfit' : 62 + pl.length ≤ g'.length := by omega
+  clear hgl
+  cells h1; cells h2; cells h3; cells h4; cells_le hcap
+  rename_i T
+  simp only [List.length_cons] at hfit'
+  obtain ⟨A, T', rfl, hA⟩ := split_tail T pl.length (by omega)
+  simp only [encodeEther_tie, encodeUDP_tie, udpAppendPayload_tie, ip6SetPayload_tie, etherSetPayload_tie]
+  send_exec
+  enc_exec
+  generalize hZ : List.replicate (8 + pl.length) (0 : UInt8) = Z
+  have hZl : Z.length = 8 + pl.length := by rw [← hZ, List.length_replicate]
+  clear hZ
+  simp only [Sl.put32]
+  enc_exec
+  simp (disch := mdisch) only [pokeC_all]
+  exact congrArg Outcome.ok (take_eq_frame _ _ T' _
+      (by simp only [List.cons_append, List.nil_append, List.append_assoc, hi8_34525, lo8_34525, hi8_0, lo8_0,
+            udpHdr, ip6Hdr, udp6Cks, udp6Psh]; rfl)
+      (by simp only [List.length_cons, List.length_nil, List.length_append, udpHdr, ip6Hdr]; omega))
 /-! ### message builder + send: the exported ICMP senders and arp_spoofer `Reply` -/
 
 theorem builtBytes_eq (r : Outcome (Mem × Sl)) : builtBytes r = built r := rfl
@@ -331,7 +389,7 @@ theorem icmp6SendEcho_invalid (g : Mem) (hm dm smac sip dip : Bytes) (sport dpor
 
 theorem translated_accounted : Gen.Send.sendersTranslated =
     ["arpRequest", "arp_spoofer_RequestRaw", "arp_spoofer_reply", "dhcp4_spoofer_sendDHCP4Packet",
-     "dns_naming_SendSSDPSearch", "dns_naming_sendNBNS", "icmp4SendPacket", "icmp6SendPacket"] := by decide
+     "dns_naming_SendSSDPSearch", "dns_naming_sendMDNS", "dns_naming_sendNBNS", "icmp4SendPacket", "icmp6SendPacket"] := by decide
 
 /-- the two DHCP client send paths are not translated (a `string` parameter / an option map: `EncodeDHCP4`) -/
 theorem untranslated_accounted : Gen.Send.sendersUntranslated.map (·.1) =
@@ -344,13 +402,15 @@ theorem wrappers_accounted : Gen.Send.wrappersTranslated =
      "arp_spoofer_Reply"] := by decide
 
 /-- functions ending in a send-path call that are not translated: the RA / RS senders (their messages are built by the
-    allocating ndp marshal code), the ARP request builders (composite `Addr` literals) and the NBNS query builders -/
+    allocating ndp marshal code), the ARP request builders (composite `Addr` literals) and the NBNS / mDNS query builders (`string` names, dnsmessage) -/
 theorem wrappers_untranslated_accounted : Gen.Send.wrappersUntranslated.map (·.1) =
     ["ICMP6SendRouterAdvertisement", "ICMP6SendRouterSolicitation", "arp_spoofer_Probe", "arp_spoofer_Request",
-     "arp_spoofer_RequestTo", "dns_naming_SendNBNSNodeStatus", "dns_naming_SendNBNSQuery"] := by decide
+     "arp_spoofer_RequestTo", "dns_naming_SendNBNSNodeStatus", "dns_naming_SendNBNSQuery",
+     "dns_naming_SendSleepProxyResponse", "dns_naming_sendMDNSQuery"] := by decide
 
 theorem dict_accounted : Gen.Send.sendersDict =
-    ["Checksum = checksum", "Ether.Payload = etherPayloadSl (nil ↦ nilSl)",
+    ["Checksum = checksum", "Ether(make([]byte, N)) = a zeroed buffer of N bytes (the argument g is not used)",
+     "Ether.Payload = etherPayloadSl (nil ↦ nilSl)",
      "netip.Addr.IsLinkLocalUnicast || IsLinkLocalMulticast = isLLUorLLM"] := by decide
 
 theorem setChecksum_translated : Gen.Send.setChecksumTranslated = true := by decide
